@@ -32,15 +32,22 @@
      fr    flag Lprivacypathregexp (on by default, removed by init() in a testing/debug process)
 
    Outputs(s, p, D), the query:
-     1. prefix stage (fp on): a fold over the table in a NONDETERMINISTICALLY CHOSEN ORDER
-        (FoldAll explores every order = every iteration order of the Go map): an entry k -> v
-        rewrites the current string q when q lies under directory k - prefix match AT A
-        SEGMENT BOUNDARY (Under) - and replaces ONLY that prefix (v \o Rest(q, k)).
+     1. prefix stage (fp on): an entry k -> v applies to the path p when p lies under directory
+        k - prefix match AT A SEGMENT BOUNDARY (Under) - and replaces ONLY that prefix
+        (v \o Rest(p, k)).  When several registered directories cover p they are NESTED (they are
+        all leading directories of p), and exactly one result satisfies the statement for every one
+        of them: the INNERMOST directory is replaced by its short form - then no covering directory
+        is reported, neither as the prefix nor by name behind another short form.  Rewriting an
+        outer directory first would leave the inner protected directory in the clear
+        ("/" -> "." and $HOME: "./root/work/a.go"; $HOME and $HOME/work -> "~work": "~/work/w.go").
+        So the stage is a FUNCTION of the table and the path: "for every iteration order of the
+        mapping table" the result is the same (OrderIndependent).
         $HOME stays protected whatever was removed from the table (the property names the
         home directory separately from the registered mappings); an empty $HOME protects
         nothing.
      2. regexp stage (fp on): fr on -> every registered regexp in registration order;
-        fr off -> the hard-wired rule  /Volumes/<vol>/rest -> ~/rest.
+        fr off -> nothing: with the regexp flag off no regexp rule, registered or built in, touches
+        the path (RegexpGated), so a path under no prefix mapping is then outside all mappings.
      3. if the result is still absolute it may be returned as Rel(wd, p) - relative to the
         CURRENT working directory, or it would not be an equivalent path - when that is a
         strictly shorter string ("unchanged or a shorter equivalent relative path": both are
@@ -57,9 +64,17 @@
      "ReplaceAll"  strings.ReplaceAll: every occurrence of the directory string is rewritten
      "RawTable"    the raw table is used: $HOME is exposed after Reset/Remove, and an unset
                    $HOME registers the empty string as a prefix
-   AllDevs together is the as-built behaviour; the trace specification uses it only to NAME
-   the class of a divergence (DevClass) - a divergence that AllDevs does not explain either
-   is "unexplained".
+   AllDevs together is the behaviour of the tree the check was first built on; the trace
+   specification uses it only to NAME the class of a divergence (DevClass) - a divergence that
+   AllDevs does not explain either is "unexplained".
+   BuiltDevs: two further deviations that describe what library revision ed9a368 does (found by
+   independent auditors, not by this model, which had the as-built reading built in):
+     "MapOrder"    the prefix stage is a fold over the table in MAP ITERATION ORDER, each entry
+                   applied to the output of the previous one (FoldAll explores every order): with
+                   nested directories the result depends on the order, and when the outer entry
+                   is visited first the inner protected directory is reported in the clear
+     "HardVol"     while Lprivacypathregexp is off a hard-wired copy of the factory rule
+                   /Volumes/<vol>/rest -> ~/rest  is applied, whatever is (not) registered
    Two further deviations are not as-built; they exist to show (witness configurations) that
    the invariants really constrain the two dimensions "relative paths" and "working directory
    changed after start", and to name such a divergence should it ever be observed:
@@ -78,7 +93,13 @@
                           equivalent relative path" (also: flag off => nothing is rewritten);
                           equivalent = names the same file from the CURRENT working directory
      Total               "never panics": every query has a result, a byte string
-     OrderOnlyIfNested   more than one allowed result only where two mappings cover the path
+                          with nested mappings it is the INNERMOST one that is replaced
+     InnerDirHidden      no covering directory is reported by NAME either: the result never ends
+                          with <last segment of a covering directory>/<rest of the path below it>
+     OrderIndependent    "for every iteration order of the mapping table": the prefix stage has
+                          exactly one result
+     OrderOnlyIfNested   (about the deviation MapOrder, used for the coverage statistics) folding in
+                          map order gives more than one result only where two mappings cover the path
      RegexpGated         with Lprivacypathregexp off the registered regexps have no effect
      LostWdHardened      without a working directory the result is exactly the hardened string
                          (steps 1 and 2), never the raw input of a protected path, never a relative form
@@ -109,6 +130,7 @@ DOT    == <<46>>
 DOTDOT == <<46, 46>>
 VOLUMES == <<47, 86, 111, 108, 117, 109, 101, 115, 47>>            \* "/Volumes/"
 AllDevs == {"NoBoundary", "ReplaceAll", "RawTable"}
+BuiltDevs == {"MapOrder", "HardVol"}
 WitDevs == {"StopRel", "StaleWd", "LostWdRaw"}
 AllActs == {"AddMap", "RemoveMap", "ResetMap", "AddRx", "RemoveRx", "ResetRx", "SetFlag", "Chdir", "LoseWd"}
 LOST    == <<>>      \* the value "lost" of st.wd: the process has no working directory (no byte string is empty AND a directory)
@@ -243,7 +265,16 @@ FoldAll(q, T, S, D) ==
     ELSE UNION {LET q2 == One(q, k, T[k], D)
                 IN IF "StopRel" \in D /\ ~Abs(q2) THEN {q2} ELSE FoldAll(q2, T, S \ {k}, D) : k \in S}
 
-PrefixStage(s, p, D) == LET T == TabOf(s, D) IN FoldAll(p, T, DOMAIN T, D)
+\* the innermost of a set of directories that all match the same path: the longest one
+Innermost(M) == {k \in M : \A j \in M : Len(DirStr(j)) <= Len(DirStr(k))}
+
+\* the prefix stage: the innermost matching entry, applied once to the queried path - a function of
+\* table and path.  Deviations "MapOrder" / "StopRel": a chained fold in every iteration order.
+PrefixStage(s, p, D) ==
+    LET T == TabOf(s, D)
+    IN IF "MapOrder" \in D \/ "StopRel" \in D THEN FoldAll(p, T, DOMAIN T, D)
+       ELSE LET M == {k \in DOMAIN T : Match(p, k, D)}
+            IN IF M = {} THEN {p} ELSE {One(p, k, T[k], D) : k \in Innermost(M)}
 
 \* regexp r = ^?<lit>([^/]+/)? : index of the last byte of its match starting at i, 0 = no match
 MatchEnd(q, i, r) ==
@@ -263,12 +294,12 @@ RECURSIVE RxFold(_, _, _)
 RxFold(file, q, rs) ==
     IF rs = <<>> THEN q
     ELSE RxFold(file, IF RxMatches(file, Head(rs)) THEN RxRep(q, 1, Head(rs)) ELSE q, Tail(rs))
-\* the hard-wired rule used while Lprivacypathregexp is off: /Volumes/<vol>/rest -> ~/rest
+\* deviation "HardVol": the hard-wired rule used while Lprivacypathregexp is off: /Volumes/<vol>/rest -> ~/rest
 VolRule(q) ==
     IF HasPrefix(q, VOLUMES)
     THEN LET j == FirstSlash(q, 10) IN IF j > 0 THEN TILDE \o Drop(q, j - 1) ELSE q
     ELSE q
-Stage2(s, file, q) == IF s.fr THEN RxFold(file, q, s.rx) ELSE VolRule(q)
+Stage2(s, file, q, D) == IF s.fr THEN RxFold(file, q, s.rx) ELSE IF "HardVol" \in D THEN VolRule(q) ELSE q
 
 \* an absolute result may be given as the relative path from the CURRENT working directory when
 \* that is strictly shorter
@@ -282,7 +313,7 @@ Final(s, file, q, D) ==
 Outputs(s, p, D) ==
     IF "LostWdRaw" \in D /\ s.wd = LOST THEN {p}
     ELSE IF ~s.fp THEN Final(s, p, p, D)
-    ELSE UNION {Final(s, p, Stage2(s, p, q), D) : q \in PrefixStage(s, p, D)}
+    ELSE UNION {Final(s, p, Stage2(s, p, q, D), D) : q \in PrefixStage(s, p, D)}
 
 -----------------------------------------------------------------------------
 (* Exhaustive model: every history of configuration calls within the bounds.  A query does
@@ -341,20 +372,30 @@ TotalAt(s, D) == \A p \in Inputs : Outputs(s, p, D) # {} /\ \A o \in Outputs(s, 
 NoProtectedPrefixAt(s, D) ==
     s.fp => \A p \in Inputs : \A k \in Covering(s, p) : \A o \in Outputs(s, p, D) : ~UnderSeg(o, k)
 
-\* the prefix stage replaces exactly the covering directory by its short form: the remaining
-\* segments are the input's remaining segments
+\* the prefix stage replaces exactly the covering directory - the innermost one when several are
+\* nested - by its short form: the remaining segments are the input's remaining segments
+InnerCov(K) == {k \in K : \A j \in K : Len(DirSegs(j)) <= Len(DirSegs(k))}
+RestSegs(p, k) == SubSeq(Split(p), Len(DirSegs(k)) + 1, Len(Split(p)))
 ShortFormUsedAt(s, D) ==
     s.fp => \A p \in Inputs :
                 LET K == Covering(s, p)
                 IN IF K = {} THEN PrefixStage(s, p, D) = {p}
                    ELSE \A q \in PrefixStage(s, p, D) :
-                          \E k \in K : q = Join(<<Short(s, k)>> \o SubSeq(Split(p), Len(DirSegs(k)) + 1, Len(Split(p))))
+                          \E k \in InnerCov(K) : q = Join(<<Short(s, k)>> \o RestSegs(p, k))
+
+\* no covering directory is reported by name behind something else: no result ends with the last
+\* segment of a covering directory followed by the rest of the path below that directory
+\* (the root directory has no name)
+EndsWith(a, b) == Len(b) <= Len(a) /\ SubSeq(a, Len(a) - Len(b) + 1, Len(a)) = b
+InnerDirHiddenAt(s, D) ==
+    s.fp => \A p \in Inputs : \A k \in Covering(s, p) \ {ROOT} : \A o \in Outputs(s, p, D) :
+                ~EndsWith(Split(o), <<DirSegs(k)[Len(DirSegs(k))]>> \o RestSegs(p, k))
 
 \* no mapping of any kind applies to p in state s
 Outside(s, p) ==
     \/ ~s.fp
     \/ /\ Covering(s, p) = {}
-       /\ IF s.fr THEN \A x \in 1..Len(s.rx) : ~RxMatches(p, s.rx[x]) ELSE VolRule(p) = p
+       /\ (s.fr => \A x \in 1..Len(s.rx) : ~RxMatches(p, s.rx[x]))      \* flag off: no regexp rule is in force
 \* o is a strictly shorter relative path that names the same file as the absolute path p for a
 \* process whose working directory is s.wd NOW
 ShorterEquiv(s, o, p) ==
@@ -364,8 +405,11 @@ ShorterEquiv(s, o, p) ==
 OutsideUnchangedAt(s, D) ==
     \A p \in Inputs : Outside(s, p) => \A o \in Outputs(s, p, D) : o = p \/ ShorterEquiv(s, o, p)
 
+\* "for every iteration order of the mapping table": one result
+OrderIndependentAt(s, D) == \A p \in Inputs : Cardinality(PrefixStage(s, p, D)) = 1
+\* the fold in map order (deviation MapOrder) has several results only where mappings are nested
 OrderOnlyIfNestedAt(s, D) ==
-    \A p \in Inputs : Cardinality(PrefixStage(s, p, D)) > 1 => Cardinality(Covering(s, p)) > 1
+    \A p \in Inputs : Cardinality(PrefixStage(s, p, D \cup {"MapOrder"})) > 1 => Cardinality(Covering(s, p)) > 1
 
 RegexpGatedAt(s, D) ==
     ~s.fr => \A p \in Inputs : Outputs(s, p, D) = Outputs([s EXCEPT !.rx = <<>>], p, D)
@@ -373,12 +417,14 @@ RegexpGatedAt(s, D) ==
 \* the working directory is lost: exactly the hardened string, whatever it is
 LostWdHardenedAt(s, D) ==
     s.wd = LOST => \A p \in Inputs :
-        Outputs(s, p, D) = IF s.fp THEN {Stage2(s, p, q) : q \in PrefixStage(s, p, D \ {"LostWdRaw"})} ELSE {p}
+        Outputs(s, p, D) = IF s.fp THEN {Stage2(s, p, q, D) : q \in PrefixStage(s, p, D \ {"LostWdRaw"})} ELSE {p}
 
 Total             == TotalAt(st, Devs)
 NoProtectedPrefix == NoProtectedPrefixAt(st, Devs)
 ShortFormUsed     == ShortFormUsedAt(st, Devs)
 OutsideUnchanged  == OutsideUnchangedAt(st, Devs)
+InnerDirHidden    == InnerDirHiddenAt(st, Devs)
+OrderIndependent  == OrderIndependentAt(st, Devs)
 OrderOnlyIfNested == OrderOnlyIfNestedAt(st, Devs)
 RegexpGated       == RegexpGatedAt(st, Devs)
 LostWdHardened    == LostWdHardenedAt(st, Devs)
@@ -401,6 +447,19 @@ WitnessStopRel == /\ \E i \in RelMaps : ~NoProtectedPrefixAt(AfterAdd(i), {"Stop
                   /\ \A i \in RelMaps : NoProtectedPrefixAt(AfterAdd(i), {}) /\ ShortFormUsedAt(AfterAdd(i), {})
 WitnessStaleWd == /\ \E i \in 1..Len(DirSeq) : ~OutsideUnchangedAt(AfterChdir(i), {"StaleWd"})
                   /\ \A i \in 1..Len(DirSeq) : OutsideUnchangedAt(AfterChdir(i), {})
+
+\* nested directories: folding the table in map order lets the inner directory through in some order
+\* (not replaced by its short form, its name in the clear); the property reading gives one result, the
+\* innermost short form - in the start state (cwd = / above $HOME) or after adding a mapping below another
+NestStates == {InitState} \cup {AfterAdd(i) : i \in 1..Len(MapSeq)}
+WitnessMapOrder == \E s \in NestStates :
+                      /\ ~ShortFormUsedAt(s, {"MapOrder"}) /\ ~InnerDirHiddenAt(s, {"MapOrder"}) /\ ~OrderIndependentAt(s, {"MapOrder"})
+                      /\ ShortFormUsedAt(s, {}) /\ InnerDirHiddenAt(s, {}) /\ OrderIndependentAt(s, {}) /\ NoProtectedPrefixAt(s, {})
+\* regexp flag off and no regexp registered: the hard-wired /Volumes rule rewrites a path that is
+\* outside all mappings into another path; the property reading leaves it alone
+NoRxOff == Apply(Apply(InitState, [op |-> "ResetRx"]), [op |-> "SetFlag", f |-> "regexp", on |-> FALSE])
+WitnessHardVol == /\ ~OutsideUnchangedAt(NoRxOff, {"HardVol"}) /\ OutsideUnchangedAt(NoRxOff, {})
+                  /\ RegexpGatedAt(NoRxOff, {}) /\ RegexpGatedAt(NoRxOff, {"HardVol"})
 
 \* the dimension "the working directory may be lost" is constrained: handing the input back as it came
 \* in lets the home directory / a registered directory through; the property reading does not, and it
